@@ -498,6 +498,89 @@ def memory_bounded(f, op, depth=0):
     return False
 
 
+def _event_counter(facts, f, a, b):
+    """I-count: `self.field + c` with a small constant c on a 64-bit field that is, everywhere in the crate, only ever
+    initialised with a constant or incremented by a constant: 2^64 increments are out of reach of any execution"""
+    cb = op_const(b)
+    if cb is None or "int" not in cb or not (0 <= cb["int"] < 2 ** 16) or kind_of_add(f, a) is None:
+        return None
+    fld, base_ty = kind_of_add(f, a)
+    if fld is None:
+        return None
+    struct = base_ty.replace("&mut ", "").replace("&", "").strip()
+    adt = facts.adts.get(struct)
+    if adt is None or adt["kind"] != "struct":
+        return None
+    fdesc = [x for x in adt["variants"][0]["fields"] if x["name"] == fld]
+    if not fdesc or fdesc[0]["ty"] not in ("usize", "u64", "i64", "u128", "i128", "isize"):
+        return None
+    n_inc = 0
+    for p, g in facts.fns.items():
+        if g.crate != f.crate:
+            continue
+        for bb, j, st in g.stmts():
+            lhs = st["lhs"]
+            names = [e["n"] for e in lhs["p"] if isinstance(e, dict) and "f" in e]
+            rv = st["rv"]
+            if rv["k"] == "agg" and rv.get("adt") == struct:
+                for nm, op in zip(rv.get("fields", []), rv["ops"]):
+                    if nm == fld and g.origin(op)[0] != "const" and op_const(op) is None:
+                        return None
+                continue
+            if not names or names[-1] != fld or struct not in g.locals[lhs["l"]]:
+                continue
+            if len(names) != 1:
+                return None
+            ok = False
+            if rv["k"] == "use":
+                if op_const(rv["a"]) is not None:
+                    ok = True
+                else:
+                    o = g.origin(rv["a"])
+                    if o[0] == "const":
+                        ok = True
+                    elif o[0] == "rv" and o[1]["rv"]["k"] == "bin" and o[1]["rv"]["op"].replace("WithOverflow", "") == "Add":
+                        k2 = kind_of_add(g, o[1]["rv"]["a"])
+                        c2 = op_const(o[1]["rv"]["b"])
+                        if k2 is not None and k2[0] == fld and c2 is not None and 0 <= c2.get("int", -1) < 2 ** 16:
+                            ok = True
+                            n_inc += 1
+            if not ok:
+                return None
+        for bb, t in g.calls():
+            # a `&mut self.field` handed to a callee could be written there
+            for a_ in t["args"]:
+                o = g.origin(a_)
+                if o[0] == "rv" and o[1]["rv"]["k"] == "ref" and o[1]["rv"].get("mut"):
+                    nm = [e["n"] for e in o[1]["rv"]["place"]["p"] if isinstance(e, dict) and "f" in e]
+                    if nm and nm[-1] == fld and struct in g.locals[o[1]["rv"]["place"]["l"]]:
+                        return None
+    if n_inc:
+        return "I-count: %s.%s is a 64-bit event counter (only ever set to a constant or incremented by a small constant, %d site(s)): 2^64 increments are out of reach" % (
+            struct.rsplit("::", 1)[-1], fld, n_inc)
+    return None
+
+
+def kind_of_add(f, a):
+    """(field name, type of the base local) when the operand is a copy of `base.field` (one field deep)"""
+    pl = op_place(a)
+    cur = a
+    for _ in range(4):
+        pl = op_place(cur)
+        if pl is None:
+            return None
+        names = [e["n"] for e in pl["p"] if isinstance(e, dict) and "f" in e]
+        if names:
+            if len(names) == 1:
+                return names[0], f.locals[pl["l"]]
+            return None
+        sd = f.single_def(pl["l"])
+        if sd is None or sd[2] != "assign" or sd[3]["rv"]["k"] != "use":
+            return None
+        cur = sd[3]["rv"]["a"]
+    return None
+
+
 def idiom_arith(facts, s):
     f, t = s.fn, s.term
     kind = s.what
@@ -520,6 +603,9 @@ def idiom_arith(facts, s):
         oa = f.origin(a)
         if oa[0] == "local" and op_const(b) is not None and memory_bounded(f, a):
             return "I-mem: counter incremented by a constant once per iteration of a loop over in-memory data"
+        why = _event_counter(facts, f, a, b)
+        if why:
+            return why
         return None
     if kind.startswith("Overflow(Sub)"):
         a, b = t["ops"][0], t["ops"][1]
